@@ -2174,7 +2174,7 @@ def preprocess_file(
         # Handle multiline macro continuation
         if def_cont_name is not None:
             output_file.append("")
-            is_multiline = line.strip()[-1] != "\\"
+            is_multiline = not line.strip().endswith("\\")
             line_to_append = line.strip() if is_multiline else line[0:-1].strip()
             defs_tmp[def_cont_name] = append_multiline_macro(
                 defs_tmp[def_cont_name], line_to_append
